@@ -240,6 +240,10 @@ func replayHist(kind string, input json.RawMessage) (bool, string) {
 	switch kind {
 	case "schema":
 		return ReplaySchema(input)
+	case "scale":
+		return ReplayScale(input)
+	case "headerbytes":
+		return ReplayHeaderBytes(input)
 	case "unktype":
 		return ReplayUnknownType(input)
 	case "restart":
